@@ -9,7 +9,7 @@ CONSTANTS MIds, MVoters, MLearners, PreVoteOn, CheckQuorumOn,
           EagerReady, QuiescentTicks, MaxLeaderTicks, TickNodes, MaxDrops,
           MaxTransfers, TransferTargets, MaxConf, ConfMenuIds, MaxReads, LazyApply, AllowCompact, ProposeAnywhere,
           MaxDups, TargetPreds, DropTypes, DropTo, DupTypes, CompactNodes,
-          MaxReqSnaps, ReqSnapNodes, MaxUnreach
+          MaxReqSnaps, ReqSnapNodes, MaxUnreach, PartialPersist
 
 K0 == [election_tick |-> 3, heartbeat_tick |-> 1, max_size_per_msg |-> NoLimit, max_inflight |-> 2,
        check_quorum |-> CheckQuorumOn, pre_vote |-> PreVoteOn, skip_bcast_commit |-> FALSE, batch_append |-> FALSE,
@@ -63,8 +63,12 @@ Next ==
                       \/ (Fine /\ ReadyA(i))
                       \/ (Fine /\ AdvanceAppendA(i))
                       \/ (Fine /\ AllowAsync /\ AdvanceAsyncA(i))
-                      \/ (Fine /\ AllowAsync /\ \E u \in {app[i].lastTaken} : FsyncA(i, u))
-                      \/ (Fine /\ AllowAsync /\ \E k \in {app[i].lastDurable} : NotifyA(i, k))
+                      \/ (Fine /\ AllowAsync
+                            /\ \E u \in (IF PartialPersist THEN {app[i].pending[x].number : x \in DOMAIN app[i].pending}
+                                          ELSE {app[i].lastTaken}) : FsyncA(i, u))
+                      \/ (Fine /\ AllowAsync
+                            /\ \E k \in (IF PartialPersist THEN (app[i].lastNotified + 1)..app[i].lastDurable
+                                          ELSE {app[i].lastDurable}) : NotifyA(i, k))
                       \/ (Fine /\ ApplyA(i, LastQueued(i)))
                       \/ (Count("Propose") < MaxProposals /\ (ProposeAnywhere \/ node[i].role = "L") /\ ProposeA(i, Payload(Count("Propose")), 2))
                       \/ (LazyApply /\ ~Fine /\ ~(EagerReady /\ SomeReady) /\ ApplyA(i, LastQueued(i)))
